@@ -7,7 +7,7 @@
 (* prints every value with its reference encoding as a JSON test vector    *)
 (* for the real yabgp codec.                                               *)
 (***************************************************************************)
-EXTENDS WireUpdate, WireOpen, TLCExt, Json
+EXTENDS WireUpdate, WireOpen, WireComm, TLCExt, Json
 
 CONSTANTS FAMILY      \* which vector family this run enumerates: "upd", "updvar", "cor", "open", "openrt", "notif", "rr", "ka"
 
@@ -27,6 +27,8 @@ NotifVecs == {[kind |-> "notif", u |-> n] : n \in NotifPool}
 RRVecs == {[kind |-> "rr", u |-> r] : r \in RRPool}
 Vecs == CASE FAMILY = "upd" -> UpdVecs [] FAMILY = "updvar" -> VarVecs [] FAMILY = "cor" -> CorVecs
           [] FAMILY = "open" -> OpenVecs [] FAMILY = "openrt" -> OpenRtVecs [] FAMILY = "notif" -> NotifVecs
+          [] FAMILY = "comm" -> {[kind |-> "comm", sub |-> 16, u |-> x] : x \in ExtPool} \cup {[kind |-> "comm", sub |-> 8, u |-> x] : x \in StdPool}
+                                 \cup {[kind |-> "comm", sub |-> 32, u |-> x] : x \in LargePool}
           [] FAMILY = "rr" -> RRVecs [] FAMILY = "ka" -> {[kind |-> "ka", u |-> [x |-> 0]]}
 
 Bytes(v) ==
@@ -35,6 +37,9 @@ Bytes(v) ==
      [] v.kind = "notif" -> EncNotification(v.u.code, v.u.sub, v.u.data)
      [] v.kind = "rr" -> EncRouteRefresh(v.u.typ, v.u.afi, v.u.res, v.u.safi)
      [] v.kind = "ka" -> EncKeepalive
+     [] v.kind = "comm" ->     \* an UPDATE announcing one prefix with the base attributes and this one community
+          LET a == EncAttrs(Base(TRUE), TRUE, FALSE) \o AttrTLV(v.sub, v.u.o, FALSE)
+          IN Message(2, U16(0) \o U16(Len(a)) \o a \o EncPrefix(P6[6]))
      [] OTHER -> EncUpdate(v.u, v.asn4, v.var)
 Init == vec \in Vecs
 Next == FALSE /\ UNCHANGED vec
@@ -46,6 +51,7 @@ RefWellFormed ==
      [] vec.kind = "notif" -> WfNotification(Bytes(vec))
      [] vec.kind = "rr" -> WfRouteRefresh(Bytes(vec))
      [] vec.kind = "ka" -> WfKeepalive(Bytes(vec))
+     [] vec.kind = "comm" -> WfUpdate(Bytes(vec), TRUE)
      [] OTHER -> TRUE
 Emit == PrintT("@W " \o ToJson([vec EXCEPT !.u = IF vec.kind = "cor" THEN [name |-> vec.u.name] ELSE vec.u] @@ [b |-> Bytes(vec)]))
 =============================================================================
